@@ -126,5 +126,10 @@ Canon(x) ==
     [] x.k = "lambda2" -> <<"lambda", <<"p", "q">>, Canon(x.e)>>
     [] x.k = "walrus" -> <<"walrus", "w", Canon(x.e)>>
 
+\* an expression that may stand left of `=` (a name, an attribute, a subscript - whatever chain leads to it) as the target
+\* of an assignment: the statement's target is the very tree the expression has on its own
+Targetable(x) == x.k \in {"var", "attr", "index"}
+EmitAssign == \A off \in Offsets : \A x \in {y \in ExprsFrom(off) : Targetable(y)} :
+   PrintT("ASSIGN " \o ToJson([text |-> Text(x) \o " = v9", canon |-> <<"assign", Canon(x), <<"var", "v9">>>>, top |-> "assign-" \o x.k, off |-> off]))
 Emit == \A off \in Offsets : \A x \in ExprsFrom(off) : PrintT("CASE " \o ToJson([text |-> Text(x), canon |-> Canon(x), top |-> x.k, off |-> off]))
 =============================================================================
